@@ -21,6 +21,9 @@ CONSTANTS Loc,       \* Loc[a] : sequence of host addresses of agent a
           Renom, MaxRenom, \* renomination enabled (controlling side issues valued nominations), budget
           MaxClose,    \* 1: agents may be closed in model checking, 0: not
           MaxData,     \* budget of application-data operations (writes and injected data datagrams)
+          BufLimit,    \* capacity of the agent's receive buffer in bytes (the code: 1 000 000)
+          PLen,        \* payload length of the datagrams the model checker writes
+          MaxPause,    \* model checking: 0 = the readers always keep up
           Lite,        \* Lite[a] : a is an ICE-lite agent
           ForgeConflict, \* TRUE: forged requests may carry the receiver's own role, with any tie-breaker order (peer misbehaviour mid-session)
           Miss,        \* near-miss generation: names of guards switched OFF in this configuration ({} = the faithful model)
@@ -29,6 +32,7 @@ Agents == {"A","B"}
 Other(a) == IF a = "A" THEN "B" ELSE "A"
 HostPrio == 9
 NoReads == [a \in {"A", "B"} |-> <<>>]
+Wr0 == [n |-> 0, paused |-> [a \in {"A", "B"} |-> FALSE], grace |-> [a \in {"A", "B"} |-> FALSE], buf |-> [a \in {"A", "B"} |-> <<>>]]
 Tid0 == [A |-> 1, B |-> 1001]   \* transaction ids are ordinals in disjoint ranges per issuing agent
 NeedPrio(a) == ~Lite[a] \/ CheckPrio[a]          \* needsToCheckPriorityOnNominated
 VARIABLES role, gen, rgen, locals, remotes, pairs, nextId, pend, sel, nomPair, conn, nextTid,
@@ -39,7 +43,9 @@ VARIABLES role, gen, rgen, locals, remotes, pairs, nextId, pend, sel, nomPair, c
           answered,  \* history
           dnet,      \* application-data datagrams in flight (bag of [from, src, dst, pid])
           rd,        \* rd[a] : payload ids handed to a's reader by the last step -- observation only
-          wr         \* number of data operations so far (budget; also the next payload id in model checking)
+          wr         \* the application's side of the data plane: n = data operations so far (budget; also the next payload id in model
+                     \* checking); paused[a] = a's reader has stopped calling Read; grace[a] = it was inside Read when it stopped, so the
+                     \* next datagram still goes straight through; buf[a] = what the agent's receive buffer holds for it, <<pid, len>> each
 vars == <<role, gen, rgen, locals, remotes, pairs, nextId, pend, sel, nomPair, conn, nextTid,
           net, ticks, loss, dup, inj, rst, now, lastRx, selStart, chkStart, lastTick, gath, lastNom, nomGen, issued, out, answered, dnet, rd, wr>>
 corev == <<role, gen, rgen, locals, remotes, pairs, nextId, pend, sel, nomPair, conn, nextTid,
@@ -116,7 +122,7 @@ Init ==
   /\ lastTick = [a \in Agents |-> "Unknown"] /\ gath = [a \in Agents |-> "complete"]
   /\ lastNom = [a \in Agents |-> 0] /\ nomGen = [a \in Agents |-> 0] /\ issued = <<>>
   /\ out = EmptyBag /\ answered = [a \in Agents |-> {}]
-  /\ dnet = EmptyBag /\ rd = NoReads /\ wr = 0
+  /\ dnet = EmptyBag /\ rd = NoReads /\ wr = Wr0
 
 \* ---------- Tick(a): the contact closure
 RECURSIVE PingAll(_, _, _, _)
@@ -404,27 +410,42 @@ CoreSame == UNCHANGED <<role, gen, rgen, locals, remotes, pairs, nextId, pend, s
                         now, selStart, chkStart, lastTick, gath, lastNom, nomGen, issued, answered>> /\ out' = EmptyBag
 \* Conn.Write: through the selected pair, else the best valid pair, else an error (no effect)
 WritePair(a) == IF sel[a] # 0 THEN PairById(pairs[a], sel[a]) ELSE BestValid(pairs[a])
-Write(a, pid) ==
-  /\ wr < MaxData /\ wr' = wr + 1 /\ CoreSame /\ UNCHANGED lastRx /\ rd' = NoReads
+Spend == wr.n < MaxData /\ wr' = [wr EXCEPT !.n = @ + 1]
+Write(a, pid, ln) ==
+  /\ Spend /\ CoreSame /\ UNCHANGED lastRx /\ rd' = NoReads
   /\ LET k == WritePair(a) IN
      IF k = 0 THEN UNCHANGED dnet
-     ELSE dnet' = dnet (+) One([from |-> a, src |-> NatMap[pairs[a][k].l], dst |-> pairs[a][k].r, pid |-> pid])
+     ELSE dnet' = dnet (+) One([from |-> a, src |-> NatMap[pairs[a][k].l], dst |-> pairs[a][k].r, pid |-> pid, len |-> ln])
 \* a payload that parses as STUN is refused
-WriteStun(a) == wr < MaxData /\ wr' = wr + 1 /\ CoreSame /\ UNCHANGED <<lastRx, dnet>> /\ rd' = NoReads
-InjectData(d) == wr < MaxData /\ wr' = wr + 1 /\ CoreSame /\ UNCHANGED lastRx /\ rd' = NoReads /\ dnet' = dnet (+) One(d)
+WriteStun(a) == Spend /\ CoreSame /\ UNCHANGED <<lastRx, dnet>> /\ rd' = NoReads
+InjectData(d) == Spend /\ CoreSame /\ UNCHANGED lastRx /\ rd' = NoReads /\ dnet' = dnet (+) One(d)
+\* the agent's receive buffer (packetio.Buffer limited to BufLimit bytes, two bytes of bookkeeping per datagram): what does not fit
+\* is discarded on arrival - the application never sees it and it is not accounted to anybody
+RECURSIVE BufUsed(_)
+BufUsed(q) == IF q = <<>> THEN 0 ELSE q[1][2] + 2 + BufUsed(Tail(q))
+Fits(q, ln) == BufUsed(q) + 2 + ln <= BufLimit
 \* a non-STUN datagram reaches the reader only from the address of a known remote candidate; it refreshes that candidate's liveness
 DeliverData(d) ==
-  /\ BagIn(d, dnet) /\ <<d.src, d.dst>> \in Reach /\ conn[OwnerOf(RevNat(d.dst))] # "New" /\ dnet' = dnet (-) One(d) /\ CoreSame /\ UNCHANGED wr
+  /\ BagIn(d, dnet) /\ <<d.src, d.dst>> \in Reach /\ conn[OwnerOf(RevNat(d.dst))] # "New" /\ dnet' = dnet (-) One(d) /\ CoreSame
   /\ LET lc == RevNat(d.dst)  b == OwnerOf(lc) IN
      IF lc \in Rng(locals[b]) /\ RemIdx(remotes[b], d.src) # 0
-     THEN rd' = [NoReads EXCEPT ![b] = <<d.pid>>] /\ lastRx' = [lastRx EXCEPT ![b][d.src] = now]
-     ELSE rd' = NoReads /\ UNCHANGED lastRx
+     THEN /\ lastRx' = [lastRx EXCEPT ![b][d.src] = now]
+          /\ IF ~wr.paused[b] \/ wr.grace[b]
+             THEN rd' = [NoReads EXCEPT ![b] = <<d.pid>>] /\ wr' = [wr EXCEPT !.grace[b] = FALSE]
+             ELSE rd' = NoReads /\ wr' = IF Fits(wr.buf[b], d.len) THEN [wr EXCEPT !.buf[b] = Append(@, <<d.pid, d.len>>)] ELSE wr
+     ELSE rd' = NoReads /\ UNCHANGED <<lastRx, wr>>
 DropData(d) == BagIn(d, dnet) /\ dnet' = dnet (-) One(d) /\ CoreSame /\ UNCHANGED <<wr, lastRx>> /\ rd' = NoReads
 VanishData(d) == BagIn(d, dnet) /\ <<d.src, d.dst>> \notin Reach /\ dnet' = dnet (-) One(d) /\ CoreSame /\ UNCHANGED <<wr, lastRx>> /\ rd' = NoReads
-ForgedData == UNION {{[from |-> "X", src |-> s, dst |-> NatMap[Loc[b][1]], pid |-> wr + 1] : s \in {"x9", NatMap[Loc[Other(b)][1]]}} : b \in Agents}
+\* the application stops reading (it is inside Read at that moment, as a reader that keeps up always is) and later catches up
+PauseRead(a) == /\ ~wr.paused[a] /\ conn[a] \in {"Checking", "Connected", "Disconnected"}
+                /\ wr' = [wr EXCEPT !.paused[a] = TRUE, !.grace[a] = TRUE] /\ CoreSame /\ UNCHANGED <<lastRx, dnet>> /\ rd' = NoReads
+ResumeRead(a) == /\ wr.paused[a]
+                 /\ rd' = [NoReads EXCEPT ![a] = [k \in 1..Len(wr.buf[a]) |-> wr.buf[a][k][1]]]
+                 /\ wr' = [wr EXCEPT !.paused[a] = FALSE, !.grace[a] = FALSE, !.buf[a] = <<>>] /\ CoreSame /\ UNCHANGED <<lastRx, dnet>>
+ForgedData == UNION {{[from |-> "X", src |-> s, dst |-> NatMap[Loc[b][1]], pid |-> wr.n + 1, len |-> PLen] : s \in {"x9", NatMap[Loc[Other(b)][1]]}} : b \in Agents}
 DataIdle == UNCHANGED <<dnet, wr>> /\ rd' = NoReads
 DataNext ==
-  \/ \E a \in Agents : Write(a, wr + 1) \/ WriteStun(a)
+  \/ \E a \in Agents : Write(a, wr.n + 1, PLen) \/ WriteStun(a) \/ (MaxPause > 0 /\ (PauseRead(a) \/ ResumeRead(a)))
   \/ \E d \in BagToSet(dnet) : DeliverData(d) \/ DropData(d) \/ VanishData(d)
   \/ \E d \in ForgedData : InjectData(d)
 CoreNext ==
